@@ -6,6 +6,8 @@ import (
 	"math"
 	"reflect"
 	"testing"
+	"unicode"
+	"unicode/utf8"
 
 	"github.com/vapourismo/knx-go/knx/dpt"
 	"pgregory.net/rapid"
@@ -203,6 +205,27 @@ func TestC08(t *testing.T) {
 				}
 			}
 		}
+		if ti.Main == 16 && mine() {
+			// texts that are well-formed UTF-8 (what a sender with the wrong character set transmits): every pair and
+			// some longer runs of code points from each UTF-8 length class, alone and mixed with ASCII
+			runes := []rune{'A', 0x7f, 0x80, 0xe4, 0xff, 0x100, 0x17f, 0x7ff, 0x800, 0x4f60, 0x597d, 0xffff, 0x10000, 0x1f600, 0x10ffff}
+			text := func(rs ...rune) {
+				b := append([]byte{0}, []byte(string(rs))...)
+				if len(b) > 15 {
+					return
+				}
+				try(append(b, make([]byte, 15-len(b))...))
+			}
+			for _, r1 := range runes {
+				text(r1)
+				for _, r2 := range runes {
+					text(r1, r2)
+					text('a', r1, 'b', r2)
+					text(r1, r2, r1)
+					text(r1, r1, r2, r2)
+				}
+			}
+		}
 		switch ti.WireL {
 		case 1:
 			if mine() {
@@ -312,6 +335,17 @@ func TestC08(t *testing.T) {
 			} else {
 				p[i] = rapid.SampledFrom(alpha).Draw(rt, "a")
 			}
+		}
+		if ti.Kind == reflect.String && n >= 2 && rapid.IntRange(0, 2).Draw(rt, "utf8-text") == 0 {
+			// well-formed UTF-8 text in the payload
+			txt := []byte(rapid.StringOfN(rapid.RuneFrom(nil, unicode.Latin, unicode.Han, unicode.Cyrillic, unicode.So), 1, 14, -1).Draw(rt, "text"))
+			for i := range p {
+				p[i] = 0
+			}
+			for len(txt) > n-1 || !utf8.Valid(txt) {
+				txt = txt[:len(txt)-1]
+			}
+			copy(p[1:], txt)
 		}
 		plan := c08Plan{Type: ti.Name, Hex: hx(p)}
 		wrong := (ti.WireL > 0 && n != ti.WireL) || (ti.WireL == 0 && n < 2)
